@@ -345,4 +345,25 @@ def _qr_no_conv(inp):
     return inp.get("cls") == "repeated" and res.get("exc") == "RuntimeError" and str(res.get("msg", "")).startswith("qr: failed to converge")
 
 
+
+@predicate("nthroot_newton_branch_high_precision")
+def _nthroot_highprec(inp):
+    """libelefun.mpf_nthroot, Newton branch (n <= 20, or n > 20 at precisions above 233 + 28.3 n^0.62) at precisions above ~1000 bits:
+    the fixed-point root of an exact n-th power comes out one unit off even in round-to-nearest (10 extra bits do not scale with
+    the 10% precision supplement used for n > 10)"""
+    c = inp["case"]
+    n, prec = int(c.get("n", 0)), int(c["prec"])
+    return c.get("fun") == "root" and n >= 7 and prec >= 1000 and not (n > 20 and (n >= 20000 or prec < int(233 + 28.3 * n ** 0.62)))
+
+
+@predicate("ivfun_rgamma_large_integer_point")
+def _iv_rgamma_big(inp):
+    """iv.rgamma / iv.gamma at large arguments: mpf_gamma with a directed mode rounds an approximation (the Stirling series value),
+    so the endpoint can be on the wrong side by ~2^-15 ulp"""
+    if inp.get("fun") not in ("rgamma", "gamma", "factorial", "loggamma") or inp.get("class") != "contain":
+        return False
+    pm = inp.get("point_mag") or [0]
+    return isinstance(pm[0], int) and pm[0] >= 7
+
+
 import special_findings  # noqa: E402  (C18/C19/C22 predicates; must stay at the end of this file)
